@@ -27,4 +27,10 @@ def sliceFrom (x : List α) (i : Int) : List α := x.drop (norm x.length i).toNa
 /-- `range(a, b)` -/
 def range (a b : Int) : List Int := (List.range (b - a).toNat).map fun k : Nat => a + (k : Int)
 
+/-- `enumerate(l)` -/
+def enumerate {β : Type} (l : List β) : List (Int × β) := l.zipIdx.map fun p => ((p.2 : Int), p.1)
+
+/-- `l.index(y)` (ValueError when absent is modelled as `len(l)`; the translated code only looks up members) -/
+def index {β : Type} [DecidableEq β] (l : List β) (y : β) : Int := (l.idxOf y : Int)
+
 end Prs.Py
